@@ -114,7 +114,9 @@ var c01Families = &vlib.Check{
 	Gen: func(t *rapid.T) *vlib.Case {
 		r := vlib.RapidRnd{T: t}
 		var b []byte
-		switch r.Intn(7) {
+		switch r.Intn(9) {
+		case 7, 8:
+			return &vlib.Case{Project: genDescriptionFamily(r)}
 		case 5, 6:
 			b = genAliasFamily(r)
 		case 0:
@@ -130,6 +132,61 @@ var c01Families = &vlib.Check{
 		}
 		return &vlib.Case{Project: vlib.SingleFile(b)}
 	},
+}
+
+// genDescriptionFamily: Description texts whose lines are indented irregularly - more, less, by tabs, whitespace-only lines
+// shorter and longer than the indentation of the text - in the plain and the parenthesised form, under INFO, TAG, a method
+// and a JSON-RPC method, with every line-ending convention; sometimes in an included file, sometimes with a NUL byte.
+func genDescriptionFamily(r vlib.Rnd) *vlib.Project {
+	nl := vlib.Pick(r, []string{"\n", "\n", "\r\n", "\r"})
+	text := func(ind string) string {
+		var sb strings.Builder
+		n := 1 + r.Intn(5)
+		for i := 0; i < n; i++ {
+			switch r.Intn(7) {
+			case 0:
+				sb.WriteString(nl) // empty line
+			case 1:
+				sb.WriteString(vlib.Pick(r, []string{" ", "  ", "\t", ind + "    ", ind[:len(ind)/2]}) + nl) // blanks only
+			case 2:
+				sb.WriteString(ind + "      deeper line" + nl)
+			case 3:
+				sb.WriteString("\t" + "tabbed line" + nl)
+			default:
+				sb.WriteString(ind + vlib.Pick(r, []string{"text line", "(not a context)", "a # b", "x // y", "  two more blanks"}) + nl)
+			}
+		}
+		return sb.String()
+	}
+	desc := func(ind string) string {
+		if vlib.Chance(r, 1, 3) {
+			return ind + "Description" + nl + ind + "(" + nl + text(ind+"  ") + ind + ")" + nl
+		}
+		return ind + "Description" + nl + ind + "  first" + nl + text(ind+"  ")
+	}
+	var sb strings.Builder
+	switch r.Intn(4) {
+	case 0:
+		sb.WriteString("INFO" + nl + "  Title \"t\"" + nl + desc("  "))
+	case 1:
+		sb.WriteString("TAG @g" + nl + desc("  "))
+	case 2:
+		sb.WriteString("GET /d" + nl + desc("      ") + "  200 any" + nl)
+	default:
+		sb.WriteString("URL /r" + nl + "  Protocol json-rpc-2.0" + nl + "  Method m" + nl + desc("    ") + "    Params" + nl + "      {}" + nl)
+	}
+	body := sb.String()
+	if vlib.Chance(r, 1, 6) {
+		// a NUL byte somewhere in the block
+		i := r.Intn(len(body) + 1)
+		body = body[:i] + "\x00" + body[i:]
+	}
+	if vlib.Chance(r, 1, 3) {
+		return &vlib.Project{Root: "root.jst", Files: map[string][]byte{
+			"root.jst": []byte("JSIGHT 0.3" + nl + "INCLUDE part.jst" + nl + "GET /after" + nl + "  200 any" + nl),
+			"part.jst": []byte(body)}}
+	}
+	return vlib.SingleFile([]byte("JSIGHT 0.3" + nl + body))
 }
 
 var c01Soup = &vlib.Check{
@@ -361,6 +418,12 @@ func TestC01(t *testing.T) {
 				limit = 400
 			}
 			var docs [][]byte
+			// every kind of lexeme that has a closing delimiter, so that some prefix ends inside it or on its first byte
+			docs = append(docs,
+				[]byte("JSIGHT 0.3\n\nGET /x /* abc */\n  200 any /* a\n  b */\n"),
+				[]byte("JSIGHT 0.3\n###\nblock\n###\nURL \"/q \\\" x\" // note\n(\n  GET\n  (\n    200 regex\n      /a\\/b/\n  )\n)\n"),
+				[]byte("JSIGHT 0.3\nINFO\n  Description\n  (\n    text\n\n    more\n  )\nENUM @e /* n */\n  [\"a\", 1] # c\n"),
+			)
 			for _, s := range synthSeeds {
 				docs = append(docs, []byte(s))
 			}
